@@ -114,13 +114,13 @@ type MayPanic struct {
 	// regexp group counts for package-level regexp variables and struct fields
 	rxGroups map[types.Object]int
 	// parameter preconditions: callee -> list
-	Preconds map[*types.Func][]Precond
-	loopVars []loopBound
+	Preconds    map[*types.Func][]Precond
+	loopVars    []loopBound
 	sortClosure map[string]int
 	frozen      bool
 	tsBound     map[types.Object]*types.Var // type-switch bound variable -> interface parameter it came from
 	alwaysNil   map[types.Object]bool       // parameters that receive the nil literal at every call site
-	CheckNil bool
+	CheckNil    bool
 	// ExtraCondFacts lets a client derive domain facts from conditions (e.g. "arr:x").
 	ExtraCondFacts func(m *MayPanic, e ast.Expr, pol bool) map[string]int
 	// FieldAssumed: dereference of base.field is assumed safe under the facts in force.
@@ -136,14 +136,14 @@ type guardFact struct {
 }
 
 type Precond struct {
-	Param2 int // for var-index preconditions: the index parameter
-	Off    int // idx + Off < len(slice)
+	Param2 int    // for var-index preconditions: the index parameter
+	Off    int    // idx + Off < len(slice)
 	Suffix string // path below the parameter, e.g. ".Type"
-	Param int
-	Kind  PanicKind
-	Need  int
-	Expr  string
-	Pos   token.Pos
+	Param  int
+	Kind   PanicKind
+	Need   int
+	Expr   string
+	Pos    token.Pos
 }
 
 type loopBound struct {
